@@ -34,6 +34,9 @@ func (w *Worker) lookupIntrinsic(fn *ssa.Function) intrFn {
 	if h, ok := stubs[name]; ok {
 		return h
 	}
+	if h, ok := reflStubs[name]; ok {
+		return h
+	}
 	if o.Pkg != nil {
 		switch o.Pkg.Pkg.Path() {
 		case "fmt":
@@ -136,8 +139,7 @@ func init() {
 				return invDone, nil
 			}
 			if len(r.log) >= len(r.prefix) {
-				r.qFeas++
-				if r.checkWith(cond) == Unsat {
+				if r.feasible(cond) == Unsat {
 					r.abort(OInfeasible, "")
 				}
 			}
